@@ -45,12 +45,13 @@ CLAIMED = {
                      "scipy.integrate.ode / odeint written from scipy's interface (exact flow of a test problem, state buffer "
                      "updated in place, evaluators called with the library's argument order) over all grid forms x "
                      'includeOrigin x full_output x methods x eigenvalue schedules x integer/float x0; func/jac pairing and '
-                     'parameter-name agreement at the remaining call sites; shape inference of the jacobian evaluator'),
+                     'parameter-name agreement at the remaining call sites; shape inference of the jacobian evaluator; 430 histories [solve, assign '
+                     'initial state / time / values / parameters (real setters interpreted), solve again] on one model object'),
         "level": ("Decides the repo-owned half of 'one row per requested time, in order, origin first, each row the solution "
                      "at its own time': with an exact model integrator the rows must equal the exact flow at the requested "
                      'times (so buffer aliasing, dropped/duplicated/shifted rows, restarts from the wrong time, dtype '
                      "truncation and wrong grids all show), integrators are set up with existing scipy names, the caller's "
-                     "functions, tolerances and step budget, a failed step raises. Does not decide that scipy's integrators are "
+                     "functions, tolerances and step budget, a failed step raises; for all histories up to the stated length a solve returns the solution of the model as it stands (no stale stored result). Does not decide that scipy's integrators are "
                      'accurate.'),
         "note": _TB,
     },
@@ -61,7 +62,8 @@ CLAIMED = {
                      'shared states, literal and symbolic magnitudes, explicit terms, one-state / one-event shapes) and '
                      'compared entry by entry, as polynomial identities in the rate and magnitude symbols, with V, rates, ode = '
                      'V*rates + explicit terms, reactant matrix; compileExprAndFormat interpreted for every (shape, output '
-                     'type, back-end); role sequences of symbol/value lists; namespace rule; shape inference'),
+                     'type, back-end); every legacy route (add_transition / add_birth_death / add_event) interpreted into the event list the builders read; '
+                     'role sequences of symbol/value lists; namespace rule; shape inference'),
         "level": ('Decides that each builder returns exactly the matrices the property defines on every enumerated '
                      'definition class (any rewriting that computes the same matrices is accepted), that symbols and values '
                      'share the order (states,t,params) with values placed by name, that derived parameters are substituted for '
@@ -108,10 +110,11 @@ CLAIMED = {
         "technique": ('static analysis by abstract interpretation of the syntax tree (nothing of /repo is imported or run): '
                      '_checkJump evaluated on 60 (position, limit shape, value) cases; _jump interpreted on models with upper, '
                      'two-sided and raised lower limits (exact, fixed and adaptive tau) against the limit-respecting reference '
-                     'walk; default-limit data flow'),
+                     'walk; the constructor\'s declaration routine with the real state_list setter interpreted on declaration forms incl. range-style names and '
+                     'states added after construction'),
         "level": "Decides that a step is rejected iff it leaves a present bound, for every state; that rejection returns "
                  "the old state/time; that only accepted states are recorded; that failure of the fall-back ends the run; "
-                 "that undeclared limits default to (0, None). The initial state being inside the limits is user input.",
+                 "that undeclared limits default to (0, None) and that the limit list handed to the steppers has one entry per state, each state's own declaration's limits at its own index. The initial state being inside the limits is user input.",
         "note": _TB,
     },
     "C09": {
@@ -150,11 +153,12 @@ CLAIMED = {
         "technique": ('static analysis by abstract interpretation of the syntax tree (nothing of /repo is imported or run): '
                      '_addJumpsBetweenTime interpreted on concrete event records (even/uneven grids, grids longer/shorter than '
                      'the path, exact and tau counts) with a histogram model; last-event look-up and time-argument handling '
-                     'interpreted over all accepted grid forms; simulated paths against the reference walk'),
+                     'interpreted over all accepted grid forms; solve_stochast interpreted end to end on scripted concrete paths (overshooting, dying out '
+                     'inside the grid, single event; list/tuple/array grids, scalar horizons, exact and tau-leap); simulated paths against the reference walk'),
         "level": "Decides that per-interval counts are per transition (column i from column i of the jump record, event "
                  "times without the initial time, target grid as bins), that the look-up returns the state at the last event "
-                 "time <= each target in order, and that gridded runs route states/counts/grid through these routines with "
-                 "the right argument roles. Numerical identity rows = V x counts follows with C04 and is not re-decided.",
+                 "time <= each target in order, and that whole gridded runs return, for every scripted path, the path's state at each requested time, the path's per-interval event counts "
+                 "and rows that differ by V x counts. That _jump produces a correct path is C04's.",
         "note": _TB + "; numpy histogram/searchsorted/where semantics as documented",
     },
     "C16": {
@@ -163,10 +167,11 @@ CLAIMED = {
                      "walk and all draws must come from numpy's global generator; the parameters setter interpreted on "
                      'frozen-distribution and (sampler, args) inputs over repeated assignments with negative/zero/positive '
                      'draws; interprocedural reachability of local generators with constant propagation (seed=None, '
-                     'parallel=False) and a positive control; same-object data flow between mean and returned list'),
+                     'parallel=False) and a positive control; simulate_param / solve_determ interpreted with a recording integrator for 1..257 iterations: '
+                     'the mean against the element-wise mean of exactly the returned runs'),
         "level": "Decides that serial runs can only draw through numpy's global generator (so a global seed fixes the "
                  "stream), that each run starts from a copy of the initial state and no stepper mutates its input, and "
-                 "that the reported mean is over the returned list along the stacking axis. 'Different seeds differ' is "
+                 "that the reported mean equals the element-wise mean of exactly the runs returned beside it (for the iteration counts interpreted, incl. counts beyond any block size). 'Different seeds differ' is "
                  "a statement about numpy and is not decided.",
         "note": _TB,
     },
@@ -225,13 +230,15 @@ CLAIMED = {
         "note": _TB + "; fixed small shapes (layout errors are dimension-generic and show at non-square shapes)",
     },
     "C14": {
-        "technique": "static analysis: interpretation of the kernels' straight-line numpy code into canonical rational "
+        "technique": "static analysis by abstract interpretation of the syntax tree (nothing of /repo is imported or run): the kernels' straight-line numpy code brought to canonical rational "
                      "functions over log/lgamma atoms with helper inlining; polynomial identity against reference "
-                     "log-densities; structural differentiation",
+                     "log-densities; structural differentiation; and each kernel constructed by interpreting its real constructors on concrete arrays "
+                     "(re-implemented numpy dtype / broadcasting semantics) for every spread form (default, python int/float, per-observation real and integer arrays, "
+                     "single column) and evaluated for flat and single-column predictions against the reference density and its central differences",
         "level": "Proves as identities of canonical forms, for all y, yhat, spread in the positive domain, that each loss is "
                  "minus the summed reference log-density (Square: sum of squared weighted residuals) and that diff_loss / "
-                 "diff2Loss are the first / second derivatives of the unweighted loss. Shape handling and floating point are "
-                 "not decided.",
+                 "diff2Loss are the first / second derivatives of the unweighted loss; and on constructed kernels at concrete points that spread broadcasting, integer-typed inputs and "
+                 "single-column inputs give the same values. Floating-point accuracy far from the sample points is not decided.",
         "note": _TB + "; reference table sa/specs/densities.py",
     },
     "C20": {
